@@ -12,6 +12,8 @@ OBLIGATIONS = [
     "Pkgcore.C13.maskOk_eq_spec",
     "Pkgcore.C13.allowed_eq_spec",
     "Pkgcore.C13.kwOk_eq_spec",
+    "Pkgcore.C13.empty_entry_means_testing_arch",
+    "Pkgcore.C13.empty_entry_means_nothing_when_unstable",
     "Pkgcore.C13.license_accept_pointwise",
     "Pkgcore.C13.license_dnf_to_formula",
     "Pkgcore.C13.licOk_eq_spec",
@@ -35,7 +37,11 @@ RULE = ("a case = one generated repository (8-10 packages over 2 categories x 4 
         "mixes, LICENSE and/or expressions up to depth 3, repository package.mask, license_groups with nesting), a profile chain of 1-3 "
         "nodes (package.mask with removals, package.unmask, package.keywords, package.accept_keywords, make.defaults) and a user "
         "configuration (package.mask/unmask/accept_keywords/keywords/license as files or directories, ACCEPT_KEYWORDS, ACCEPT_LICENSE), "
-        "every package decided; non-trivial = at least two of the three filters have something configured that matches the package, "
+        "every package decided; plus the bounded-exhaustive keyword matrix: one configuration per subset of the ACCEPT_KEYWORDS token "
+        "universe {amd64, ~amd64, x86, ~x86, *, ~*, **} (quick: subsets of at most two tokens; thorough: all subsets, universe extended by "
+        "~arm64; handed over via make.defaults, the domain settings or split over both), each holding every kind of per-package entry "
+        "(none, empty, ~amd64, **, *, ~*, ~x86, x86 ~arm64) once and every package keyword set under every name; "
+        "non-trivial = at least two of the three filters have something configured that matches the package, "
         "or the verdicts of the three filters are not all equal")
 LEVEL_TEXT = ("Kernel-checked Lean 4 theorems about a model of domain.filter_repo/generate_filter and the keywords and license filters: "
               "visible = not masked (mask stacking is last-writer-wins, net of unmasks) and some keyword accepted (accepted set = ARCH, "
@@ -127,7 +133,7 @@ class World:
         self.spec = spec
         R = self.R
         w(R + "/profiles/repo_name", "c13\n")
-        w(R + "/profiles/categories", "".join(c + "\n" for c in CATS))
+        w(R + "/profiles/categories", "".join(c + "\n" for c in spec.get("cats", CATS)))
         w(R + "/profiles/arch.list", "amd64\nx86\narm64\n")
         w(R + "/metadata/layout.conf", "masters =\ncache-formats = md5-dict\n")
         os.makedirs(R + "/eclass")
@@ -356,6 +362,11 @@ def corpus_specs():
         S(u=user(**{"package.accept_keywords": [("*/a", [])]})), S(u=user(**{"package.accept_keywords": [("cat/a*", [])]})),
         # empty entry on an unstable system means nothing
         S(defaults=D(ACCEPT_KEYWORDS="~amd64"), u=user(**{"package.accept_keywords": [("cat/c", [])]})),
+        # "stable" means ~ARCH is not accepted: a system accepting a foreign testing keyword, ~* or a foreign stable keyword is still
+        # stable for its own ARCH (empty entry = ~ARCH); one accepting ~ARCH next to other things is not
+        S(defaults=D(ACCEPT_KEYWORDS="amd64 ~x86"), u=user(**{"package.accept_keywords": [("cat/a", []), ("dog/*", [])]})),
+        S(defaults=D(ACCEPT_KEYWORDS="amd64 x86"), settings={"ACCEPT_KEYWORDS": "~arm64"}, u=user(**{"package.accept_keywords": [("=cat/a-2", [])]})),
+        S(defaults=D(ACCEPT_KEYWORDS="~x86 ~amd64"), u=user(**{"package.accept_keywords": [("cat/c", []), ("cat/a", [])]})),
         # ** / * / ~* per package
         S(u=user(**{"package.accept_keywords": [("cat/b", ["**"]), ("cat/c", ["~*"]), ("dog/d", ["*"])]})),
         # mask stacking: repo mask removed by a profile, re-added by the child, user unmask; version-specific unmask
@@ -375,41 +386,203 @@ def corpus_specs():
     ]
 
 
+# ------------------------------------------------------------------ bounded-exhaustive keyword matrix
+
+KW_UNIVERSE = ["amd64", "~amd64", "x86", "~x86", "*", "~*", "**"]
+KW_UNIVERSE_THOROUGH = KW_UNIVERSE + ["~arm64"]
+# what a per-package entry can say (one of each in every matrix world) ...
+ENTRY_KINDS = [None, [], ["~amd64"], ["**"], ["*"], ["~*"], ["~x86"], ["x86", "~arm64"]]
+# ... and what a package can be keyworded (one version of every name per set)
+PKG_KEYWORD_SETS = [["amd64"], ["~amd64"], ["x86", "arm64"], ["~x86"], [], ["-*", "~amd64", "~arm64"]]
+
+
+def subsets(universe, max_size=None):
+    import itertools
+    for k in range(len(universe) + 1 if max_size is None else max_size + 1):
+        for c in itertools.combinations(universe, k):
+            yield list(c)
+
+
+def matrix_spec(rng, accept):
+    """one configuration of the keyword matrix: ACCEPT_KEYWORDS = `accept` (a subset of the token universe, handed over through
+    make.defaults, through the domain settings, or split over both), every kind of per-package entry exactly once (on the eight
+    category/name pairs, by a random permutation and through a random form of restriction), every package keyword set under
+    every name.  The reference is computed from what really matches, so overlapping restrictions are fine."""
+    L = {"all": [{"lic": "MIT"}]}
+    keys = [(c, n) for c in CATS for n in NAMES]
+    pkgs = {(c, n, str(v + 1)): {"keywords": list(kws), "license": L, "license_text": "MIT"}
+            for c, n in keys for v, kws in enumerate(PKG_KEYWORD_SETS)}
+    kinds = list(ENTRY_KINDS)
+    rng.shuffle(kinds)
+    entries = []
+    for (c, n), toks in zip(keys, kinds):
+        if toks is None:
+            continue
+        v = str(rng.randint(1, len(PKG_KEYWORD_SETS)))
+        form = rng.choice(["%s/%s", "%s/%s", "%s/%s", "*/%s", "%s/%s*", "=%s/%s-" + v, ">=%s/%s-" + v])
+        entries.append((form % (c, n) if form.count("%s") == 2 else form % n, list(toks)))
+    if rng.random() < 0.15:
+        entries.insert(rng.randrange(len(entries) + 1), (rng.choice(["*/*", "cat/*", "dog/*"]), list(rng.choice(ENTRY_KINDS[1:]))))
+    rng.shuffle(entries)
+    files = {"package.mask": [], "package.unmask": [], "package.accept_keywords": [], "package.keywords": [], "package.license": []}
+    for e in entries:
+        files["package.accept_keywords" if rng.random() < 0.8 else "package.keywords"].append(e)
+    mode = rng.random()
+    if mode < 0.55 or not accept:
+        in_defaults, in_settings = list(accept), []
+    elif mode < 0.7:
+        in_defaults, in_settings = [], list(accept)
+    else:
+        cut = rng.randrange(len(accept) + 1)
+        sh = list(accept)
+        rng.shuffle(sh)
+        in_defaults, in_settings = sh[:cut], sh[cut:]
+    return {
+        "pkgs": pkgs, "repo_masks": [], "groups": {"FREE": ["MIT"]},
+        "profile": [{"masks": [], "unmasks": [], "keywords": [], "accept_keywords": []}],
+        "defaults": {"ARCH": "amd64", "CHOST": "x86_64-pc-linux-gnu", "USE": "", "ACCEPT_KEYWORDS": " ".join(in_defaults)},
+        "user": files, "settings": {"ACCEPT_KEYWORDS": " ".join(in_settings)} if in_settings else {},
+        "user_dirs": {k: rng.random() < 0.2 for k in files},
+    }
+
+
+# ------------------------------------------------------------------ neighbours of a configuration (escalation of a mismatch)
+
+def neighbours(spec, pkgkey, limit=24):
+    """configurations near `spec` on which the property is defined: without negated keyword tokens, then with single entries
+    emptied / dropped, single ACCEPT_KEYWORDS tokens dropped, the package rekeyworded, and empty entry + testing-only package"""
+    import copy
+    def strip(toks):
+        return [t for t in toks if not t.startswith("-")]
+    base = copy.deepcopy(spec)
+    for holder in (base["defaults"], base["settings"]):
+        if "ACCEPT_KEYWORDS" in holder:
+            holder["ACCEPT_KEYWORDS"] = " ".join(strip(holder["ACCEPT_KEYWORDS"].split()))
+    if base["settings"].get("ACCEPT_KEYWORDS") == "":
+        del base["settings"]["ACCEPT_KEYWORDS"]
+    for f in ("package.accept_keywords", "package.keywords"):
+        base["user"][f] = [(r, strip(t)) for r, t in base["user"][f]]
+    for node in base["profile"]:
+        for f in ("accept_keywords", "keywords"):
+            node[f] = [(r, strip(t)) for r, t in node[f] if strip(t)]
+    out = [("no-negated-tokens", base)]
+    def variant(name, fn):
+        v = copy.deepcopy(base)
+        fn(v)
+        out.append((name, v))
+    def set_kw(v, kws):
+        v["pkgs"][pkgkey] = dict(v["pkgs"][pkgkey], keywords=list(kws))
+    for kws in (["~amd64"], ["amd64"], ["~x86"], []):
+        variant("package-keywords=%s" % " ".join(kws), lambda v, kws=kws: set_kw(v, kws))
+    for f in ("package.accept_keywords", "package.keywords"):
+        for i in range(len(base["user"][f])):
+            def empty(v, f=f, i=i):
+                v["user"][f][i] = (v["user"][f][i][0], [])
+            def empty_testing(v, f=f, i=i):
+                empty(v)
+                set_kw(v, ["~amd64"])
+            def drop(v, f=f, i=i):
+                del v["user"][f][i]
+            variant("%s[%d]-emptied" % (f, i), empty)
+            variant("%s[%d]-emptied+package-keywords=~amd64" % (f, i), empty_testing)
+            variant("%s[%d]-dropped" % (f, i), drop)
+    for holder in ("defaults", "settings"):
+        toks = base[holder].get("ACCEPT_KEYWORDS", "").split()
+        for i in range(len(toks)):
+            def less(v, holder=holder, i=i):
+                t = v[holder]["ACCEPT_KEYWORDS"].split()
+                del t[i]
+                v[holder]["ACCEPT_KEYWORDS"] = " ".join(t)
+                if holder == "settings" and not t:
+                    del v[holder]["ACCEPT_KEYWORDS"]
+            variant("%s-ACCEPT_KEYWORDS-without-%s" % (holder, toks[i]), less)
+    return out[:limit]
+
+
+# ------------------------------------------------------------------ run
+
+def evaluate_world(ctx, label, spec, pending):
+    """write the configuration, build the real domain, queue one decision per package"""
+    if isinstance(spec, dict) and spec.get("pkgs") and not all(isinstance(k, tuple) for k in spec["pkgs"]):
+        spec = dict(spec, pkgs={tuple(k.split("|")): v for k, v in spec["pkgs"].items()})
+    if isinstance(spec, dict):
+        # JSON round trip (replays) turns the (restriction, tokens) pairs into lists; harmless, they are only unpacked
+        pass
+    world = World(ctx.rng, corpus=spec)
+    jspec = dict(world.spec, pkgs={"|".join(k): v for k, v in world.spec["pkgs"].items()})
+    try:
+        try:
+            repo, dom = build_domain(world)
+            visible = {p.cpvstr for r in dom.source_repos for p in r}
+            raw = {p.cpvstr: p for p in repo}
+        except Exception as e:
+            ctx.violation({"label": label, "world": jspec}, f"building the domain / listing packages raised {type(e).__name__}: {e}")
+            return
+        parsed = {}
+        for cpv, pkg in sorted(raw.items()):
+            req = model_request(world, dom, pkg, parsed)
+            if req is None:
+                ctx.note("a generated restriction is of a kind collapsed_restrict_to_data does not file; case skipped")
+                continue
+            focus = {"ARCH": req["kw"]["arch"], "ACCEPT_KEYWORDS": req["kw"]["accept"], "package_KEYWORDS": req["pkg"]["keywords"],
+                     "matching_keyword_entries": [e["tokens"] for e in req["kw"]["entries"] if e["hit"]]}
+            pending.append((req, {"label": label, "package": cpv, "focus": focus, "world": jspec}, cpv in visible))
+    finally:
+        world.close()
+
+
 def run(ctx):
     rng = ctx.rng
     worlds = [("corpus%d" % i, s) for i, s in enumerate(corpus_specs())]
     if ctx.replay_cases:
         worlds = [("replay", c["world"]) for c in ctx.replay_cases if "world" in c] + worlds
     worlds += [("%d:%d" % (ctx.seed, i), None) for i in range(ctx.n(140, 5000))]
-    pending = []
+    pending, suspects = [], []
     for label, spec in worlds:
-        if isinstance(spec, dict) and spec.get("pkgs") and not all(isinstance(k, tuple) for k in spec["pkgs"]):
-            spec = dict(spec, pkgs={tuple(k.split("|")): v for k, v in spec["pkgs"].items()})
-        world = World(rng, corpus=spec)
-        jspec = dict(world.spec, pkgs={"|".join(k): v for k, v in world.spec["pkgs"].items()})
-        try:
-            try:
-                repo, dom = build_domain(world)
-                visible = {p.cpvstr for r in dom.source_repos for p in r}
-                raw = {p.cpvstr: p for p in repo}
-            except Exception as e:
-                ctx.violation({"label": label, "world": jspec}, f"building the domain / listing packages raised {type(e).__name__}: {e}")
-                continue
-            parsed = {}
-            for cpv, pkg in sorted(raw.items()):
-                req = model_request(world, dom, pkg, parsed)
-                if req is None:
-                    ctx.note("a generated restriction is of a kind collapsed_restrict_to_data does not file; case skipped")
-                    continue
-                pending.append((req, {"label": label, "package": cpv, "world": jspec}, cpv in visible))
-        finally:
-            world.close()
+        evaluate_world(ctx, label, spec, pending)
         if len(pending) >= 4000:
-            judge(ctx, pending)
-    judge(ctx, pending)
+            judge(ctx, pending, suspects)
+    judge(ctx, pending, suspects)
+    # ---- the keyword matrix: every ACCEPT_KEYWORDS subset (quick: of at most two tokens) x every entry kind x every keyword set
+    universe = ctx.n(KW_UNIVERSE, KW_UNIVERSE_THOROUGH)
+    done = set()
+    for accept in subsets(universe, ctx.n(2, None)):
+        done.add(tuple(accept))
+        evaluate_world(ctx, "matrix:%d:%s" % (ctx.seed, " ".join(accept) or "(empty)"), matrix_spec(rng, accept), pending)
+        ctx.count("matrix_worlds")
+        if len(pending) >= 4000:
+            judge(ctx, pending, suspects)
+    judge(ctx, pending, suspects)
+    # ---- a model/implementation mismatch without a failing input so far: evaluate the property itself on the real code on the
+    # configurations around it (negated tokens removed, entries emptied/dropped, package rekeyworded, ACCEPT_KEYWORDS shrunk) and
+    # on the whole keyword matrix, so that a broken property is reported on an input on which its own statement fails
+    if suspects and not ctx.violations:
+        seen, explored = set(), 0
+        for case in suspects:
+            if case["label"] in seen or len(seen) >= 3:
+                continue
+            seen.add(case["label"])
+            spec = case["world"]
+            spec = dict(spec, pkgs={tuple(k.split("|")): v for k, v in spec["pkgs"].items()})
+            c, rest = case["package"].split("/")
+            n, v = rest.rsplit("-", 1)
+            for name, variant in neighbours(spec, (c, n, v)):
+                evaluate_world(ctx, "near[%s|%s]:%s" % (case["label"], case["package"], name), variant, pending)
+                explored += 1
+            judge(ctx, pending, None)
+        for accept in subsets(universe):
+            if tuple(accept) in done or ctx.violations:
+                continue
+            evaluate_world(ctx, "matrix:%d:%s" % (ctx.seed, " ".join(accept)), matrix_spec(rng, accept), pending)
+            explored += 1
+            if len(pending) >= 2000:
+                judge(ctx, pending, None)
+        judge(ctx, pending, None)
+        ctx.note("model/implementation mismatch escalated: the property evaluated on %d neighbouring configurations and the rest of the "
+                 "keyword matrix: %s" % (explored, "failing input found" if ctx.violations else "it holds on all of them"))
 
 
-def judge(ctx, pending):
+def judge(ctx, pending, suspects):
     if not pending:
         return
     reps = ctx.model([r for r, _, _ in pending])
@@ -424,6 +597,11 @@ def judge(ctx, pending):
         ctx.count("filters_mask%d_kw%d_lic%d" % (rep["mask"], rep["kw"], rep["lic"]))
         ctx.count("kw_entries_%d" % min(5, len(req["kw"]["entries"])))
         ctx.count("kw_plain" if rep["spec_kw"] is not None else "kw_with_negations")
+        accept = req["kw"]["accept"]
+        ctx.count("system_%s" % ("unstable" if "~" + req["kw"]["arch"] in accept else
+                                 "stable_accepting_other_testing" if any(k.startswith("~") for k in accept) else "stable"))
+        if any(e["hit"] and not e["tokens"] for e in req["kw"]["entries"]):
+            ctx.count("empty_entry_matches")
         for e in req["kw"]["entries"]:
             ctx.count("kw_cls_" + e["cls"])
         # ---- the property on the real code (edge C)
@@ -436,4 +614,6 @@ def judge(ctx, pending):
         # ---- model vs implementation (edge A)
         if impl != rep["visible"]:
             ctx.mismatch(case, f"implementation {'visible' if impl else 'not visible'}; model mask={rep['mask']} kw={rep['kw']} lic={rep['lic']}")
+            if suspects is not None:
+                suspects.append(case)
     pending.clear()
